@@ -134,7 +134,7 @@ func selfTestBenign(c *Ctx) []selfTestResult {
 		}
 	}
 	sort.Strings(ids)
-	ids = append(ids, "alpha-rename-all-locals", "alpha-rename-locals-and-unexported-functions")
+	ids = append(ids, "alpha-rename-all-locals", "alpha-rename-locals-functions-fields")
 	self, err := os.Executable()
 	if err != nil {
 		return nil
@@ -299,8 +299,8 @@ func runOneBenign(c *Ctx, self, dir, id string) map[string]selfTestResult {
 			}
 		}
 		args := []string{"-dir", repoCopy}
-		if strings.HasSuffix(id, "functions") {
-			args = append(args, "-funcs")
+		if strings.HasSuffix(id, "functions-fields") {
+			args = append(args, "-funcs", "-fields")
 		}
 		for _, r := range corePkgs {
 			args = append(args, "./"+r)
